@@ -188,6 +188,38 @@ harness!(name=c18_duniform_update_var, prop=C18, mode=R, kind=normal, tier=quick
     let f = DiscreteUniform::new(a1, a1 + w1);
     crate::vclose!(d.var(), f.var(), 1e-6, "variance after update");
 });
+// @bound c18_duniform_setters: integer bounds in [-20, 40]; set_lower to ANY value not above the current upper bound (the current upper bound itself included: the one-point range `new` accepts), then set_upper to any value not below the new lower bound (equality included); mass at every k in [-60, 60]
+// @claim c18_duniform_setters: each single setter to a valid target succeeds - a setter must accept exactly the ranges the constructor accepts - and gives the fresh object's mass function and mean (R)
+harness!(name=c18_duniform_setters, prop=C18, mode=R, kind=normal, tier=quick, unwind=8, {
+    let (a0, w0, l, w1) = (inp::i64(0), inp::i64(1), inp::i64(2), inp::i64(3));
+    vassume!(a0 >= -20 && a0 <= 20 && w0 >= 0 && w0 <= 20 && l >= -20 && l <= a0 + w0 && w1 >= 0 && w1 <= 20);
+    let mut d = DiscreteUniform::new(a0, a0 + w0);
+    d.set_lower(l);
+    let f = DiscreteUniform::new(l, a0 + w0);
+    let k = inp::i64(90);
+    vassume!(k >= -60 && k <= 60);
+    crate::vclose!(d.pmf(k), f.pmf(k), 1e-15, "pmf after set_lower");
+    crate::vclose!(d.mean(), f.mean(), 1e-9, "mean after set_lower");
+    d.set_upper(l + w1);
+    let g = DiscreteUniform::new(l, l + w1);
+    crate::vclose!(d.pmf(k), g.pmf(k), 1e-15, "pmf after set_upper");
+    crate::vclose!(d.mean(), g.mean(), 1e-9, "mean after set_upper");
+});
+// the two boundary targets as instances of their own (a setter to the one-point range [u, u] / [l, l])
+harness!(name=c18_duniform_setters_point, prop=C18, mode=R, kind=normal, tier=quick, unwind=8, {
+    let (a0, w0) = (inp::i64(0), inp::i64(1));
+    vassume!(a0 >= -20 && a0 <= 20 && w0 >= 0 && w0 <= 20);
+    let mut d = DiscreteUniform::new(a0, a0 + w0);
+    d.set_lower(a0 + w0);
+    let f = DiscreteUniform::new(a0 + w0, a0 + w0);
+    let k = inp::i64(90);
+    vassume!(k >= -60 && k <= 60);
+    crate::vclose!(d.pmf(k), f.pmf(k), 1e-15, "pmf after set_lower(upper)");
+    let mut e = DiscreteUniform::new(a0, a0 + w0);
+    e.set_upper(a0);
+    let g = DiscreteUniform::new(a0, a0);
+    crate::vclose!(e.pmf(k), g.pmf(k), 1e-15, "pmf after set_upper(lower)");
+});
 // @claim c18_binomial: setters and update of Binomial (integer n, real p)
 harness!(name=c18_binomial, prop=C18, mode=R, kind=normal, tier=quick, unwind=8, {
     let (n0, n1) = (inp::u64(0), inp::u64(1));
